@@ -149,15 +149,36 @@ def run_property(ctx, prop):
         if r.tier == "thorough" and ctx.tier != "thorough":
             continue
         t0 = time.time()
-        try:
-            got = list(r.fn(ctx))
-        except Anchor as a:
-            got = [anchor_missing(r.rid, a.what)]
-        except Exception as ex:  # an idiom the rule's code does not handle: fail closed, say where
-            import traceback
 
-            tb = traceback.extract_tb(ex.__traceback__)[-1]
-            got = [undecided(r.rid, "%s:internal" % r.rid, "-", "the rule could not be evaluated on this tree (%s: %s at %s:%d): an idiom outside what the analysis models" % (type(ex).__name__, str(ex)[:160], os.path.basename(tb.filename), tb.lineno))]
+        def evaluate():
+            try:
+                return list(r.fn(ctx))
+            except Anchor as a:
+                return [anchor_missing(r.rid, a.what)]
+            except Exception as ex:  # an idiom the rule's code does not handle: fail closed, say where
+                import traceback
+
+                tb = traceback.extract_tb(ex.__traceback__)[-1]
+                return [undecided(r.rid, "%s:internal" % r.rid, "-", "the rule could not be evaluated on this tree (%s: %s at %s:%d): an idiom outside what the analysis models" % (type(ex).__name__, str(ex)[:160], os.path.basename(tb.filename), tb.lineno))]
+
+        got = evaluate()
+        if any(not i.ok for i in got):
+            # Two equivalent readings of the same code: with the `let`s the pinned tree does not have looked
+            # through (a named sub-expression is its expression), and with every variable kept as written.
+            # Each reading is sound on its own; a rule that is satisfied under either is satisfied.
+            import core as _core
+
+            _core.LOOK_THROUGH_DEFAULT[0] = False
+            saved_cache = dict(ctx.cache)
+            try:
+                ctx.cache.clear()
+                alt = evaluate()
+            finally:
+                _core.LOOK_THROUGH_DEFAULT[0] = True
+                ctx.cache.clear()
+                ctx.cache.update(saved_cache)
+            if not any(not i.ok for i in alt):
+                got = alt
         n = len([i for i in got if not i.anchor])
         if n < r.floor and not any(i.anchor for i in got):
             got.append(
